@@ -91,7 +91,7 @@ class C10(Check):
         if r < 0.40 and e.input_kind == 'str' and not stateful:
             return ['parse_as', text, start, rng.choice(['slice', 'str'])]
         if r < 0.47:
-            return ['parse_on_error', text, start]
+            return ['parse_on_error', text, start, rng.choice([1, 2, 6])]
         if r < 0.57:
             return ['lex', text, rng.choice([None, k]), rng.random() < 0.3, rng.random() < 0.3 and not stateful]
         if r < 0.575:
